@@ -549,7 +549,7 @@ func VerifC15Cond(form, pm, ncl, def, inner int) {
 		}
 		return c
 	}
-	cn := zzC15Node{kind: '[', colon: form == 1, at: form == 2, pm: pm, hasDef: def != 0}
+	cn := zzC15Node{kind: '[', colon: form == 1, at: form == 2, pm: pm, hasDef: def != 0 && 2 <= ncl} // a default clause needs a ~:; before it
 	var args slip.List
 	switch form {
 	case 1:
